@@ -191,7 +191,7 @@ def mk_merge(K, optset, syntax, k1fix):
 
 
 # ------------------------------------------------------------------ C03-b character level
-def mk_chars(form, n):
+def mk_chars(form, n, lo=0, hi=128):
     import emmet
     from vf.pipe import make_config
     user = {'options': {'output.format': False}}
@@ -211,7 +211,9 @@ def mk_chars(form, n):
                     c == '!' for c in v])
 
     def h(v: str):
-        if not (1 <= len(v) <= n) or not all([ord(c) < 128 for c in v]) or not lb_free(v):
+        if not (1 <= len(v) <= n) or not (ascii_only(v, 128) & lb_free(v)):
+            return 'skip'
+        if not (lo <= ord(v[0]) < hi):
             return 'skip'
         if form == 'dq':
             if not ok_quoted(v, '"'):
@@ -239,10 +241,11 @@ def mk_chars(form, n):
     def twin(v: str):
         r = h(v)
         return r if r == 'skip' else 'twin'
-    return {'fn': h, 'twin': twin, 'witnesses': [{'v': 'x'}, {'v': 'x-'[:n]}],
-            'assumptions': ['value form %s; value ASCII, 1..%d chars, free of the characters that end the literal in that '
-                            'context (quote, $, backslash; blanks, =, brackets for unquoted; name characters for shorthands)'
-                            % (form, n)],
+    wit = [{'v': w} for w in ['x', 'x-'[:n], 'A', '1', '~', '-', '!'] if lo <= ord(w[0]) < hi]
+    return {'fn': h, 'twin': twin if wit else None, 'witnesses': wit,
+            'assumptions': ['value form %s; first character in [%d,%d); value ASCII, 1..%d chars, free of the characters that end the '
+                            'literal in that context (quote, $, backslash; blanks, =, brackets for unquoted; name characters for '
+                            'shorthands)' % (form, lo, hi, n)],
             'functions': ['abbreviation.tokenizer.tokenize/literal/quote/bracket/operator (character level)',
                           'parser.attribute', 'convert.convert_attribute']}
 
@@ -261,8 +264,13 @@ def jobs(tier):
             out.append(Job('C03-a/merge/K=%d,%s,%s,k1=%d' % (K, o, syn, k1), 'vf.props.c03:mk_merge',
                            dict(K=K, optset=o, syntax=syn, k1fix=k1), shape='H', bound='K=%d mentions' % K,
                            budget=900 if q else 3000, weight=100))
+    from vf.props.common import ASCII_PARTS
     for form in ('dq', 'sq', 'raw', 'class', 'id'):
-        out.append(Job('C03-b/chars/%s' % form, 'vf.props.c03:mk_chars', dict(form=form, n=2 if q else 3), shape='W',
-                       bound='value <=%d chars through the real tokenizer' % (2 if q else 3), budget=900 if q else 3000,
-                       weight=500))
+        for (lo, hi) in ASCII_PARTS:
+            if form in ('class', 'id') and (lo, hi) in ((0, 33), (37, 43), (123, 128)):
+                continue      # no name character in these ranges: the partition would be vacuous
+            out.append(Job('C03-b/chars/%s/c0=[%d,%d)' % (form, lo, hi), 'vf.props.c03:mk_chars',
+                           dict(form=form, n=2 if q else 3, lo=lo, hi=hi), shape='W',
+                           bound='value <=%d chars through the real tokenizer' % (2 if q else 3), budget=900 if q else 3000,
+                           weight=500))
     return out
